@@ -586,6 +586,61 @@ def engine_sites(nn, mode):
     return out
 
 
+def check_dict_guards(r, rule, nn, engine_functions=None):
+    """Lint on the dictionaries of positions (variant index, sequence index, length buckets): a list filed under a key is *appended to* only
+    where the key is known to be present, *created* only where it is known to be absent (else earlier positions are overwritten), and *read*
+    only where it is present (d[k] under `k in d`, d.get(k, ()) or try / except KeyError).  A reversed membership test is a KeyError on the first
+    element or a silently emptied index."""
+    seen = set()
+    classes = {nn.P.functions[x].cls for x in (engine_functions or ()) if nn.P.functions[x].cls}
+    for q in [x for x in nn.P.functions if x.startswith(MOD)]:
+        if engine_functions is not None and q not in engine_functions and nn.P.functions[q].cls not in classes and q != MOD + "_to_len_bucket":
+            continue
+        s = nn.summary(q)
+
+        def membership(e, d_, k_):
+            """polarity of the literal `k_ in d_` among the guards of event e: True / False / None (not tested)."""
+            for g, pol in e.ctx.guards:
+                for a, p in lits(g, pol):
+                    a = strip(a)
+                    if head(a) == "cmp" and a[1] in ("in", "notin") and strip_all(a[2]) == strip_all(k_) and strip_all(a[3]) == strip_all(d_):
+                        return (a[1] == "in") == p
+            return None
+        def is_map(o):
+            try:
+                return nn.map_info(q, o) is not None or (head(strip(o)) in ("dict", "alloc") and nn._map_local(q, o) is not None)
+            except Exception:
+                return False
+        stored_keys = {(strip_all(x["obj"]), strip_all(x["index"])) for x in s.events_of("setitem")}
+        for e in s.events:
+            d_, k_, what = None, None, None
+            if e.kind == "setitem" and head(strip(e["value"])) == "list" and is_map(e["obj"]):
+                d_, k_, what = e["obj"], e["index"], "create"
+            elif e.kind == "call" and is_mcall(e["term"], "append"):
+                recv = strip(strip(e["term"][1])[1])
+                if head(recv) == "sub" and is_map(recv[1]):
+                    d_, k_, what = recv[1], recv[2], "append"
+            elif e.kind == "load_sub" and is_map(e["obj"]) and not e.ctx.tries:
+                d_, k_, what = e["obj"], e["index"], "read"
+            if d_ is None:
+                continue
+            pol = membership(e, d_, k_)
+            key = (q, what, getattr(e.node, "lineno", 0))
+            if key in seen:
+                continue
+            if pol is None and what == "read" and (strip_all(d_), strip_all(k_)) not in stored_keys:
+                seen.add(key)
+                r.rep.require(False, f"{q}:{getattr(e.node, 'lineno', 0)}: {show(d_, 30)}[{show(k_, 30)}] is read without a membership test, .get() or try / except KeyError around it; whether the key is always present cannot be decided [{rule}]")
+                continue
+            if pol is None:
+                continue          # no membership test on this path: the every-path / candidate rules speak about that
+            seen.add(key)
+            want = what != "create"
+            r.rep.ob(rule, q, pol == want, {"create": "a new position list is created only under a key that is not in the dictionary yet", "append": "a position is appended only to the list of a key that is in the dictionary",
+                                            "read": "the dictionary is read only under a key that is in it"}[what], wh(r, q, e.node),
+                     expected=f"{show(k_, 30)} {'in' if want else 'not in'} {show(d_, 30)}", found=f"{show(k_, 30)} {'in' if pol else 'not in'} {show(d_, 30)}", key=f"dict guard {what} {q}:{show(k_, 30)}", lint=True)
+
+
 def check_container_casts(r, rule, nn, engine_functions=None):
     """Lint, recognisably wrong whatever the surrounding shape: a caller-supplied container of sequences is converted with an explicit element
     type that is the dtype of another array or a fixed-width string type - numpy string arrays built from lists have the width of their
@@ -620,6 +675,121 @@ def check_container_casts(r, rule, nn, engine_functions=None):
                              expected="ensure_numpy(container) / np.asarray(container) without a fixed-width dtype", found=show(x, 100), key=f"fixed-width cast {show(d, 40)}", lint=True)
 
 
+def check_make_output_sites(r, rule, functions=None):
+    """Every _make_output call hands over (triplets, the caller's output_type, the reference collection, the query collection)."""
+    from ..nnabs import lits as _lits
+    nn = get_nn(r)
+    rep = r.rep
+    sites = 0
+    for fq in [x for x in nn.P.functions if x.startswith(MOD)]:
+        if functions is not None and fq not in functions:
+            continue
+        s = nn.summary(fq)
+        for e in s.calls(MOD + "_make_output"):
+            sites += 1
+            c = strip(e["term"])
+            a = c[2]
+            rep.analysed(fq)
+            ref = nn.R._role_of(fq, a[2]) if len(a) > 2 else None
+            qry = nn.R._role_of(fq, a[3]) if len(a) > 3 else None
+            ot = nn.R._role_of(fq, a[1]) if len(a) > 1 else None
+            q2 = [t for t, role in nn.R.of(fq).items() if role == "SEQS2"]
+            no_query = len(a) < 4 or strip(a[3]) == NONE
+            if no_query:
+                # no query collection is handed on: fine where the function has none, or on a path where it is known to be absent
+                def absent(t):
+                    for g, pol in e.ctx.guards:
+                        for lit, lp_ in _lits(g, pol):
+                            lit = strip_all(lit)
+                            if head(lit) == "cmp" and strip(lit[2]) == t and strip(lit[3]) == NONE and ((lit[1] in ("is", "==") and lp_) or (lit[1] in ("isnot", "!=") and not lp_)):
+                                return True
+                    return False
+                qry_ok = all(absent(t) for t in q2)
+            else:
+                qry_ok = qry == "SEQS2"
+            # the first argument must not be one of the other API quantities (a swapped call)
+            first_role = nn.R._role_of(fq, a[0]) if a else None
+            if first_role in ("OT", "SEQS", "SEQS2"):
+                rep.ob(rule, fq, False, "the result is shaped by the reference collection (rows) and the query collection (columns) and by the caller's output_type", wh(r, fq, e.node),
+                       expected="_make_output(triplets, output_type, seqs, seqs2)", found=show(c, 90), key=f"make_output site {fq}")
+                continue
+            if ref is None or ot is None or (not no_query and qry is None):
+                # an argument whose origin the role analysis cannot trace (through a closure, a container, ...) is not a wrong argument
+                rep.require(False, f"{fq}: the origin of the arguments of {show(c, 70)} cannot be traced to the API parameters; cannot decide [{rule}]")
+                continue
+            rep.ob(rule, fq, ref == "SEQS" and qry_ok and ot == "OT", "the result is shaped by the reference collection (rows) and the query collection (columns) and by the caller's output_type",
+                   wh(r, fq, e.node), expected="_make_output(triplets, output_type, seqs, seqs2)", found=show(c, 90), key=f"make_output site {fq}")
+    return sites
+
+
+def check_kdtree_dispatch(r, rule, cds):
+    """kdtree hands the whole collection to _kdtree_leven in every mode but Hamming (where the length buckets take over)."""
+    from ..ssa import leaves
+    from ..rules import lift_ite
+    nn = get_nn(r)
+    q = MOD + "kdtree"
+    if q not in nn.P.functions:
+        return
+    s = nn.summary(q)
+    seen = set()
+    for mode in MODES:
+        if mode[0] not in cds or mode[0] == "hamming" or mode[0] in seen:
+            continue
+        seen.add(mode[0])
+        ret = fold(s.ret, nn.R.mode_subst(q, mode))
+        lv = [strip(l) for _, l in leaves(lift_ite(strip_all(ret))) if head(strip(l)) != "raise"]
+        direct = [l for l in lv if is_call(l, MOD + "_kdtree_leven")]
+        if len(lv) != 1 or len(direct) != 1:
+            if any(head(l) != "call" for l in lv):
+                r.rep.require(False, f"{q}: the returned value in mode {mode[0]} is not a single call ({'; '.join(show(l, 40) for l in lv[:2])}); cannot decide [{rule}]")
+                continue
+            r.rep.ob(rule, q, False, f"in mode custom_distance={mode[0]} kdtree searches the whole collection at once (no length buckets)", wh(r, q, s.func.node),
+                     expected="return _kdtree_leven(seqs, ...)", found="; ".join(show(l, 60) for l in lv[:2]), key=f"kdtree dispatch {mode[0]}")
+            continue
+        raw = [e for e in s.calls(MOD + "_kdtree_leven") if not e.ctx.loops]
+        if len(raw) != 1:
+            r.rep.require(False, f"{q}: {len(raw)} direct calls of _kdtree_leven outside the bucket loop; cannot decide [{rule}]")
+            continue
+        c = strip(raw[0]["term"])
+        ok = bool(c[2]) and nn.R._role_of(q, c[2][0]) == "SEQS"
+        r.rep.ob(rule, q, ok, f"in mode custom_distance={mode[0]} kdtree searches the whole collection at once (no length buckets)", wh(r, q, raw[0].node),
+                 expected="return _kdtree_leven(seqs, ...)", found=show(c, 80), key=f"kdtree dispatch {mode[0]}")
+        if mode[0] == sorted(seen)[0]:
+            check_role_forwarding(r, rule, q, c, raw[0].node, key="kdtree->leven ")
+
+
+def check_nn_glue(r, prop, cds, labels, functions):
+    """The glue between the public entry points and the engines, for every neighbour-search property whose engines it concerns: wrappers forward
+    every argument, results leave through _make_output with the right collections, kdtree dispatches by mode, the extract call is configured
+    with the block's cut-off and limit, hash_based asks for (and LookupDB honours) the self-exclusion switch."""
+    nn = get_nn(r)
+    rep = r.rep
+    rule = prop + "-GLUE"
+    check_make_output_sites(r, rule, functions | {MOD + "kdtree", MOD + "_kdtree_leven"} if (labels is None or "kdtree-worker" in labels) else functions)
+    # wrappers
+    if MOD + "symdel" in functions or labels is None or "SymdelDB.lookup" in labels:
+        q0 = MOD + "nearest_neighbor"
+        if q0 in nn.P.functions:
+            s0 = nn.summary(q0)
+            calls0 = [e for e in s0.events_of("call") if resolve_callee(nn, q0, e["term"])[0] == MOD + "symdel"]
+            if len(calls0) == 1:
+                check_role_forwarding(r, rule, q0, calls0[0]["term"], calls0[0].node, key="nearest_neighbor->symdel ")
+                rep.ob(rule, q0, strip_all(s0.ret) == strip_all(calls0[0]["term"]), "the combined entry point returns symdel's result unmodified", wh(r, q0, calls0[0].node), expected="return symdel(...)", found=show(s0.ret, 60), key="wrapper return")
+            else:
+                rep.require(False, f"{q0}: expected one call to symdel, found {len(calls0)}; cannot decide [{rule}]")
+        q1 = MOD + "symdel"
+        s1 = nn.summary(q1)
+        for e in s1.events_of("call"):
+            callee, _ = resolve_callee(nn, q1, e["term"])
+            if callee in (MOD + "SymdelDB.lookup", MOD + "SymdelDB.__init__"):
+                check_role_forwarding(r, rule, q1, e["term"], e.node, key="symdel->" + callee.rsplit(".", 1)[1] + " ")
+    if labels is None or "LookupDB.lookup" in labels:
+        check_hash_based(r, rule)
+    if labels is None or "kdtree-worker" in labels:
+        check_kdtree_dispatch(r, rule, cds)
+        check_extract(r, rule)
+
+
 def run_fga(r, prop, cds, labels=None, floor=None):
     """FGA / IST obligations of property ``prop`` for the modes whose custom_distance class is in ``cds``."""
     nn = get_nn(r)
@@ -629,12 +799,17 @@ def run_fga(r, prop, cds, labels=None, floor=None):
         if mode[0] in cds:
             qs |= {st.q for label, st, *_ in engine_sites(nn, mode) if labels is None or label in labels}
     check_container_casts(r, prop + "-IST", nn, qs)
+    check_dict_guards(r, prop + "-IST", nn, qs)
+    check_nn_glue(r, prop, cds, labels, set(qs))
+    live = {}            # label -> {mode: number of insertion sites that can be reached in that mode}
     for mode in MODES:
         if mode[0] not in cds:
             continue
         for label, st, sa, sb, policy, eqlen in engine_sites(nn, mode):
             if labels is not None and label not in labels:
                 continue
+            live.setdefault(label, {}).setdefault(mode, 0)
+            live[label][mode] += 1
             r.rep.analysed(st.q)
             dinfo0 = nn.dist_of(st.q, st.d, None)
             if dinfo0 is not None:
@@ -642,7 +817,31 @@ def run_fga(r, prop, cds, labels=None, floor=None):
                     # encode as an implied threshold literal understood by check_site
                     st.extra.setdefault("bfs", []).append((kind, T))
             check_site_ext(r, prop, nn, st, mode, sa, sb, policy, eqlen, label)
+            if label == "LookupDB.lookup" and policy == "flag" and prop != "C03":
+                # hash_based searches one collection against itself and asks for the self-exclusion: the lookup has to honour the switch
+                r.rep.ob(prop + "-GLUE", f"{st.q}#{label}@{MODE_NAME[mode]}", bool(st.extra.get("flagged")), "under the self-exclusion switch a position is never reported as its own neighbour",
+                         wh(r, st.q, st.node), expected="if pdist_mode and x_index == y_index: continue", found="present" if st.extra.get("flagged") else "no self-exclusion under the switch",
+                         key=f"{label}/{MODE_NAME[mode]} flag honoured")
             n += 1
+    # an engine that reports pairs in one mode must be able to report some in every mode it serves: an insertion whose guards fold to
+    # False in a mode (`not is_custom and ...` under a custom distance) silently empties the result there
+    elsewhere = {}
+    for mode in MODES:
+        if mode[0] in cds:
+            continue
+        try:
+            for label, st, *_ in engine_sites(nn, mode):
+                if labels is None or label in labels:
+                    elsewhere.setdefault(label, set()).add(mode)
+        except AnalysisBroken:
+            pass
+    for label in sorted(set(live) | set(elsewhere)):
+        per_mode = dict(live.get(label, {}))
+        per_mode.update({m: 1 for m in elsewhere.get(label, ())})
+        for mode in MODES:
+            if mode[0] in cds and mode not in per_mode and not (label == "kdtree-worker"):
+                r.rep.ob(prop + "-FGA", label, False, f"{label} can report a pair in mode {MODE_NAME[mode]}", "", expected="an insertion site reachable in this mode",
+                         found=f"every insertion is unreachable in this mode (reachable in: {', '.join(MODE_NAME[m] for m in per_mode)})", key=f"{label}/{MODE_NAME[mode]} dead")
     if floor is not None:
         r.rep.require(n >= floor, f"{prop}: {n} insertion site x mode instances analysed, floor is {floor}")
     return n
@@ -770,8 +969,9 @@ def check_readonly_method(r, rule, q):
                  expected="no store to self.*", found=what, key=f"write {what}")
 
 
-def _affine_range(nn, q, it, lo_expect, hi_role):
-    """range(lo, hi) with lo == lo_expect and hi == <role term> + 1 (RF equality)."""
+def _affine_range(nn, q, it, lo_expect, hi_role, exact=False):
+    """range(lo, hi) with lo <= lo_expect and hi >= <role term> + 1 (a superset of the wanted range; RF equality); ``exact``: equality on both ends
+    (where the loop variable itself is reported, e.g. as a distance)."""
     it = strip(it)
     if not is_call(it, "builtins.range") or it[3]:
         return None
@@ -796,12 +996,12 @@ def _affine_range(nn, q, it, lo_expect, hi_role):
     _affine_range.clipped = list(clipped)
     rl, rh = ctx.rf(lo), ctx.rf(hi)
     roles = {nn.R._role_of(q, t) for t in walk(hi) if head(t) in ("param", "attr", "item")}
-    ok_lo = rl.is_const() and rl.const_value() <= lo_expect
+    ok_lo = rl.is_const() and (rl.const_value() == lo_expect if exact else rl.const_value() <= lo_expect)
     k_terms = [t for t in walk(hi) if nn.R._role_of(q, t) == hi_role]
     if not k_terms:
         return (ok_lo, False, f"upper bound {show(hi, 40)} does not mention {hi_role}")
     kt = ctx.rf(k_terms[0])
-    ok_hi = (rh - kt).is_const() and (rh - kt).const_value() >= 1
+    ok_hi = (rh - kt).is_const() and ((rh - kt).const_value() == 1 if exact else (rh - kt).const_value() >= 1)
     return (ok_lo, ok_hi, f"range({show(lo, 20)}, {show(hi, 40)})")
 
 
@@ -839,10 +1039,10 @@ def check_bfs(r, rule):
     if len(loops) != 3:
         raise AnalysisBroken(f"{q}: expected a 3-deep loop nest around the insertion, found {len(loops)}")
     depth, visit, gen = loops
-    ar = _affine_range(nn, q, depth.iterable, 1, "K")
+    ar = _affine_range(nn, q, depth.iterable, 1, "K", exact=True)       # the depth is reported as the distance and bounds the ball: exactly 1..k
     if ar is None:
         raise AnalysisBroken(f"{q}: depth loop iterable {show(depth.iterable, 60)} is not range(lo, hi)")
-    r.rep.ob(rule, q, ar[0] and ar[1], "depth loop covers 1..max_edits", wh(r, q, depth.node), expected="range(1, max_edits + 1)", found=ar[2], key="bfs depth range")
+    r.rep.ob(rule, q, ar[0] and ar[1], "depth loop covers exactly 1..max_edits (the depth is the reported distance)", wh(r, q, depth.node), expected="range(1, max_edits + 1)", found=ar[2], key="bfs depth range")
     v = strip(visit.iterable)
 
     def is_snapshot(v_):
